@@ -134,7 +134,12 @@ def fresh_replay(path):
     p = subprocess.run(
         [sys.executable, os.path.join(VERIF, 'dst', 'main.py'), 'replay', path],
         env=env, capture_output=True, text=True, timeout=600)
-    return p.returncode == 1 and 'signature reproduced, digest equal' in p.stdout
+    if p.returncode == 1 and 'signature reproduced' in p.stdout:
+        if 'digest equal' not in p.stdout:
+            print('note: the violation reproduces in a fresh interpreter with a different event-log digest '
+                  '(the code under test is not deterministic for this case)')
+        return True
+    return False
 
 
 def cmd_check(args):
